@@ -93,3 +93,12 @@ def site_of(ir):
     if k in ("T", "H", "nodisp", "neg", "scale", "div", "slice") and ch:
         return f"{k}({ch[0]['k']})"
     return k
+
+
+def is_contract_refusal(e):
+    """AssertionError with which a *selected rule* documents that it refuses the request (CG / Cholesky / Lanczos / Eigh
+    on an operator not declared PSD / SelfAdjoint, PowerIteration with k != 1, ...). Anything else is not a refusal."""
+    if not isinstance(e, AssertionError):
+        return False
+    msg = str(e)
+    return any(s in msg for s in ("only valid for", "wrap in cola.", "Can't trace non square"))
